@@ -12,8 +12,14 @@ func verifRowsContain(rows []uint64, r uint64) bool {
 	return x
 }
 
-func VerifH16Rows() {
-	f := verifNewFragment(verifCacheType(), 2)
+func VerifH16Rows() { verifRowsHistory(verifCacheType()) }
+
+// the same on a fragment without a count cache (time, bool and cache-less
+// fields): the per-row bookkeeping of the write paths differs there
+func VerifH16RowsNoCache() { verifRowsHistory(CacheTypeNone) }
+
+func verifRowsHistory(cacheType string) {
+	f := verifNewFragment(cacheType, 2)
 	s := &verifBits{}
 	steps := verifBound("steps", 2)
 	for i := 0; i < steps; i++ {
